@@ -159,7 +159,9 @@ def validate(recs, workers=16, timeout=3000, keep_file=None):
         with os.fdopen(fd, "w") as f:
             for r in todo:
                 slim = {"id": r["id"], "status": r["status"], "project": r["project"], "events": r["events"],
-                        "final": r.get("final", []), "warns": r.get("warns", [])}
+                        "final": r.get("final", []), "warns": r.get("warns", []),
+                        # slots of the final ledger shared by several tasks (C01: layout inside the reported intervals)
+                        "ledger": [x for x in r.get("ledger", []) if len(x.get("parts", [])) >= 2]}
                 f.write(json.dumps(slim) + "\n")
         res = run_tlc("TraceSched", "TraceSched.cfg", env_extra={"TRACE_FILE": path}, workers=workers, timeout=timeout)
         if keep_file:
